@@ -128,7 +128,20 @@ pub fn run(ctx: &Ctx, out: &mut Out) {
         };
         let srv = d.srv_value.clone();
         let mut dg: Vec<Dgram> = Vec::new();
-        match gi % 6 {
+        match gi % 7 {
+            6 => {
+                // stale receive buffer: a long datagram with useful padding, then short malformed
+                // ones whose offsets point past their own end
+                for _ in 0..8 {
+                    let (first, seconds) = stale_buffer_probe(&mut rng);
+                    dg.push(Dgram { data: first, class: "stale-buffer-primer" });
+                    for sdg in seconds {
+                        dg.push(Dgram { data: sdg, class: "stale-buffer-offsets-past-end" });
+                    }
+                }
+                run_rounds(out, &cfg, &mut d, dg, 13);
+                out.obs("stale_buffer_scenarios", 1);
+            }
             0 => {
                 // full batches of minimum-size requests -> maximum-depth paths for this batch size
                 for _ in 0..3 {
@@ -188,7 +201,7 @@ pub fn run(ctx: &Ctx, out: &mut Out) {
         }
         out.case(fnv64(&cfg.seed) ^ gi, true);
         if out.samples.len() < 2 {
-            out.sample(json!({"scenario": gi % 6, "batch_size": cfg.batch_size}));
+            out.sample(json!({"scenario": gi % 7, "batch_size": cfg.batch_size}));
         }
         if !ctx.time_left() {
             out.note("scenario loop cut by wall budget");
@@ -200,4 +213,5 @@ pub fn run(ctx: &Ctx, out: &mut Out) {
     out.floor("sent_len>1501", 50);
     out.floor("sent_len=1024", 200);
     out.floor("full_batch_scenarios", 4);
+    out.floor("stale_buffer_scenarios", 4);
 }
